@@ -111,7 +111,7 @@ def check_script(ctx, sc):
             want = [squeeze(text[sp[f][0]:sp[l][1]]) for f, l, k in items]
             ikinds = [k for f, l, k in items]
             d22 = any(k in ('typed', 'paren', 'subq', 'dollar',
-                            'operation-x') for k in ikinds)
+                            'operation-x', 'neg') for k in ikinds)
             nodes = [n for n in by_start.get(a, [])
                      if isinstance(n, sql.IdentifierList)]
             case = dict(base, clause=text[a:b], list=ctx_name)
@@ -142,8 +142,8 @@ def check_script(ctx, sc):
             kinds = [k for x, y, k in args]
             d15 = any(k in ('paren', 'subq') for k in kinds) or (
                 len(kinds) == 1 and kinds[0] in ('case', 'operation',
-                                                 'operation-x'))
-            d22a = any(k in ('typed', 'dollar', 'operation-x')
+                                                 'operation-x', 'neg'))
+            d22a = any(k in ('typed', 'dollar', 'operation-x', 'neg')
                        for k in kinds)
             rec.monitor('function_parameters')
             nodes = [n for n in by_start.get(a, [])
